@@ -149,4 +149,66 @@ theorem run_probe (fs : FS) (out : Path) : run fs (Impl.probeOps fs out) = some 
       simp [FS.has, FS.get_set_same]
     simp [run, applyOp, hp, hhas, FS.del_set_of_get_none _ _ _ hnone]
 
+/-- a crash point behind the first operation is a crash point of the rest, run on the state the
+    first operation leaves -/
+theorem crashState_cons (fs : FS) (o : Op) (ops : List Op) (c k : Nat) :
+    crashState fs (o :: ops) (c + 1) k = match applyOp fs o with
+      | some s => crashState s ops c k
+      | none => none := by
+  unfold crashState
+  simp only [List.take_succ_cons, run]
+  cases applyOp fs o with
+  | none => rfl
+  | some s =>
+    simp only
+    cases run s (ops.take c) with
+    | none => rfl
+    | some s' => simp [interrupted]
+
+theorem errorState_cons (fs : FS) (o : Op) (ops : List Op) (fin : FS → List Op) (i k : Nat) :
+    errorState fs (o :: ops) fin (i + 1) k = match applyOp fs o with
+      | some s => errorState s ops fin i k
+      | none => none := by
+  unfold errorState
+  rw [crashState_cons]
+  cases applyOp fs o <;> rfl
+
+theorem editOpsFrom_eq (fs : FS) (mf : Path) (enc : Option Bytes)
+    (h : fs.get (Impl.partPath mf) = none) : Impl.editOpsFrom fs mf enc = Impl.editOps mf enc := by
+  have : fs.has (Impl.partPath mf) = false := (FS.has_eq_false_iff _ _).mpr h
+  simp [Impl.editOpsFrom, Impl.editOps, this]
+
+theorem editOpsFrom_leftover (fs : FS) (mf : Path) (enc : Option Bytes)
+    (h : fs.has (Impl.partPath mf) = true) :
+    Impl.editOpsFrom fs mf enc
+      = .read mf :: .remove (Impl.partPath mf) :: (Impl.editOps mf enc).tail := by
+  simp [Impl.editOpsFrom, Impl.editOps, h]
+
+theorem editOps_cons (mf : Path) (enc : Option Bytes) :
+    Impl.editOps mf enc = .read mf :: (Impl.editOps mf enc).tail := by
+  simp [Impl.editOps]
+
+/-- with a leftover: two steps in (load, removal of the leftover) the run coincides with a run of
+    the leftover-free operation list, one step in, on the filesystem without the leftover -/
+theorem crash_leftover_shift (fs : FS) (mf : Path) (old : Bytes) (enc : Option Bytes)
+    (hold : fs.get mf = some old) (hp : fs.has (Impl.partPath mf) = true) (c k : Nat) :
+    crashState fs (Impl.editOpsFrom fs mf enc) (c + 2) k
+      = crashState (fs.del (Impl.partPath mf)) (Impl.editOps mf enc) (c + 1) k := by
+  have hne : mf ≠ Impl.partPath mf := Ne.symm (partPath_ne mf)
+  have h1 : fs.has mf = true := by simp [FS.has, hold]
+  have h2 : (fs.del (Impl.partPath mf)).has mf = true := by
+    simp [FS.has, FS.get_del_other _ _ _ hne, hold]
+  rw [editOpsFrom_leftover fs mf enc hp, crashState_cons, editOps_cons mf enc, crashState_cons]
+  simp only [applyOp, h1, h2, ↓reduceIte]
+  rw [crashState_cons]
+  simp only [applyOp, hp, ↓reduceIte, List.tail_cons]
+
+theorem error_leftover_shift (fs : FS) (mf : Path) (old : Bytes) (enc : Option Bytes)
+    (fin : FS → List Op)
+    (hold : fs.get mf = some old) (hp : fs.has (Impl.partPath mf) = true) (i k : Nat) :
+    errorState fs (Impl.editOpsFrom fs mf enc) fin (i + 2) k
+      = errorState (fs.del (Impl.partPath mf)) (Impl.editOps mf enc) fin (i + 1) k := by
+  unfold errorState
+  rw [crash_leftover_shift fs mf old enc hold hp]
+
 end TorrentVerif
